@@ -164,8 +164,18 @@ func loadKnownFindings() {
 	}
 	kfLoadedFromFS = true
 	root := filepath.Dir(path)
+	var keepOnly map[string]bool // VERIF_KF_KEEP: excuse nothing but these keys (witness replays)
+	if k := os.Getenv("VERIF_KF_KEEP"); k != "" {
+		keepOnly = map[string]bool{}
+		for _, s := range strings.Split(k, ",") {
+			keepOnly[s] = true
+		}
+	}
 	for _, f := range doc.Findings {
 		if f.Status != "known" {
+			continue
+		}
+		if keepOnly != nil && !keepOnly[f.Key] {
 			continue
 		}
 		if f.Key != "" {
